@@ -3,6 +3,7 @@ Driver operations for the chain model (C01, C03, C05, C11, …). Core Lean only.
 -/
 import BHS.Model.Header
 import BHS.Spec.BestChain
+import BHS.Model.Query
 
 namespace Driver.Ops.Chain
 open BHS BHS.Chain BHS.Header
@@ -33,6 +34,20 @@ def outcomeStr : Outcome String → String
   | .rejected => "rejected"
   | .creationFail => "error:HeaderCreationFail"
 
+def verdictName : Verdict → String
+  | .confirmed => "CONFIRMED"
+  | .unable => "UNABLE_TO_VERIFY"
+  | .invalid => "INVALID"
+
+def parseItem (w : String) : Option (String × Int) :=
+  match w.splitOn ":" with
+  | [root, h] => (fun k => (root, k)) <$> h.toInt?
+  | _ => none
+
+def hashesStr (l : List (Row String)) : String := ",".intercalate (l.map (·.hash))
+
+def optKey (k : String) : Option String := if k = "-" then none else some k
+
 def parseHeader (hex : String) : Option (Src String) := (BHS.Sha256.ofHex hex).bind parse
 
 def handle (st : S) : List String → Option (S × String)
@@ -62,6 +77,48 @@ def handle (st : S) : List String → Option (S × String)
   | ["inv"] =>
     let c := cfgOf st
     some (st, s!"wf={decide (WF c st.store)} lcinv={decide (LcInv st.store)} canon={decide (Canon st.store)} struct={decide (StructValid st.store)}")
+  | "verify" :: excess :: items =>
+    match excess.toInt?, items.mapM parseItem with
+    | some e, some req =>
+      match verify st.store e req with
+      | none => some (st, "err:tipheight")
+      | some res =>
+        let agg := aggregate (res.map (fun x => x.2.2.1))
+        some (st, verdictName agg ++ ";" ++ ";".intercalate (res.map fun (root, h, v, hash) =>
+          s!"{root}:{h}:{verdictName v}:{hash.getD "-"}"))
+    | _, _ => some (st, "bad-args")
+  | ["roots", n, key] =>
+    match n.toNat? with
+    | none => some (st, "bad-args")
+    | some n =>
+      match page st.store n (optKey key) with
+      | .error .notFound => some (st, "err:notfound")
+      | .error .notLc => some (st, "err:conflict")
+      | .error .noTip => some (st, "err:notip")
+      | .ok (rows, last) => some (st, ",".intercalate (rows.map fun r => s!"{r.merkle}:{r.height}") ++ "|" ++ last.getD "-")
+  | ["locator"] => some (st, ",".intercalate (locator st.store))
+  | "getheaders" :: stop :: loc =>
+    match getHeaders st.store zeroHash loc stop with
+    | .error .noLocators => some (st, "err:nolocators")
+    | .error .stopLower => some (st, "err:stoplower")
+    | .ok rows => some (st, hashesStr rows)
+  | ["byheight", lo, cnt] =>
+    match lo.toInt?, cnt.toInt? with
+    | some lo, some cnt => some (st, ",".intercalate (sortStrs ((byHeightRange st.store lo (lo + cnt - 1)).map (·.hash))))
+    | _, _ => some (st, "bad-args")
+  | ["tips"] => some (st, ",".intercalate (sortStrs ((allTips st.store).map (·.hash))))
+  | ["ancestors", h, a] =>
+    match ancestors st.store h a with
+    | .error .notFound => some (st, "err:notfound")
+    | .error .ancestorHigher => some (st, "err:ancestorhigher")
+    | .error .notSameChain => some (st, "err:notsamechain")
+    | .ok rows => some (st, "ok:" ++ hashesStr rows)
+  | "common" :: hs =>
+    match commonAncestor st.store hs with
+    | .found r => some (st, "found:" ++ r.hash)
+    | .notFound => some (st, "err:notfound")
+    | .nilResult => some (st, "nil")
+    | .panicEmpty => some (st, "panic")
   | ["count"] => some (st, toString st.store.length)
   | _ => none
 
